@@ -362,9 +362,10 @@ func mk(k, f, t string, amt int64, gl uint64) *atx {
 	return &atx{K: k, F: f, T: t, P: f, Amt: amt, GL: gl, GP: 1}
 }
 
-// buildSetup builds the two setup blocks once: S1 funds the universe, deploys the contracts, creates the asset,
-// registers candidate a3 and points the deputy's income address at I; S2 issues the asset to a1 and a2 and lets a1
-// vote for a3.  Every node of a behaviour receives them through DPoVP.InsertBlock (1 deputy: at once stable).
+// buildSetup builds the three common setup blocks once: S1 funds the universe, deploys the contracts, creates the
+// asset and registers candidate a3; S2 issues the asset to a1 and a2 and lets a1 vote for a3; S3 points the genesis
+// deputies' income address at I.  Every node of a behaviour receives the setup chain of its world (worldOf) through
+// DPoVP.InsertBlock and DPoVP.InsertConfirms.
 func (a *adapter) buildSetup() {
 	g := a.gen.Genesis
 	var s1 []*atx
@@ -428,9 +429,6 @@ func (a *adapter) fresh(tag string, wd *world) *node.Node {
 	if n.DP.StableBlock().Hash() != wd.setup[len(wd.setup)-1].Hash() {
 		engine.Failf("setup blocks did not become stable on %s", tag)
 	}
-	if wd.stab { // no asset transactions in the term worlds (their configurations do not enable them)
-		return n
-	}
 	// The store writes the asset-code -> issuer index of a stable block from a background goroutine; until then the
 	// processor of this node discards / rejects every transaction on the asset ("asset dose not exist").  Wait for it
 	// (setup only; no verdict depends on the clock).
@@ -447,29 +445,29 @@ func (a *adapter) fresh(tag string, wd *world) *node.Node {
 }
 
 // worldOf returns (building it on first use) the setup chain for the durations and setup height a behaviour names.
-func (a *adapter) worldOf(T, I uint32, h0 int) *world {
-	key := fmt.Sprintf("%d/%d/%d", T, I, h0)
+func (a *adapter) worldOf(T, I uint32, h0 int, stab bool) *world {
+	key := fmt.Sprintf("%d/%d/%d/%v", T, I, h0, stab)
 	if wd, ok := a.worlds[key]; ok {
 		return wd
 	}
-	wd := &world{T: T, I: I, h0: h0, setup: append([]*types.Block(nil), a.setup...)}
+	wd := &world{T: T, I: I, h0: h0, stab: stab, setup: append([]*types.Block(nil), a.setup...)}
 	if h0 < len(a.setup) || T <= uint32(len(a.setup)) {
 		engine.Failf("world %s: the setup blocks occupy heights 1..%d of the genesis term", key, len(a.setup))
 	}
 	if h0 > len(a.setup) {
 		// A term-boundary world.  Block 4 prepares what a term change needs within a few scenario steps: both genesis
-		// deputies hold a deposit (M2 the larger one: it is re-elected next to a3, M1 is not), and M1 and a4 vote for a3.
+		// deputies hold a deposit (M2 the larger one: it is re-elected next to a3, M1 is not), a4 is a candidate that
+		// is not elected, and M1 and a4 vote for a3.
 		// Then empty blocks up to h0, the snapshot block of term 1 among them; the scenario must not contain a snapshot
 		// block and starts before term 1's deputies sign.
 		if T <= uint32(len(a.setup))+1 || uint32(h0) < T || uint32(h0) > T+I {
 			engine.Failf("world %s: the snapshot block must follow the setup blocks and the last setup block must lie in T..T+I", key)
 		}
-		wd.stab = true
 		a.setParams(wd)
 		parent := wd.setup[len(wd.setup)-1]
 		// (the votes come first: a vote after a balance change in the same block is Dev_VoteUsesPreTxBalance)
 		s4 := []*atx{mk("vote", "M1", "a3", 0, 40000), mk("vote", "a4", "a3", 0, 40000),
-			mk("topup", "M1", "", 300*lemo, 130000), mk("topup", "M2", "", 400*lemo, 130000)}
+			mk("topup", "M1", "", 300*lemo, 130000), mk("topup", "M2", "", 400*lemo, 130000), mk("reg", "a4", "", 300*lemo, 130000)}
 		parent = a.buildOn(a.gen, parent, a.realAll(s4), s4, "S4."+key)
 		wd.setup = append(wd.setup, parent)
 		for int(parent.Height()) < h0 {
@@ -560,17 +558,17 @@ func (a *adapter) Reset(init map[string]tla.Value) (engine.Fields, error) {
 	if a.w == nil {
 		a.init()
 	}
-	T, I, h0 := a.defT, a.defI, len(a.setup)
+	T, I, h0, stab := a.defT, a.defI, len(a.setup), false
 	if st, ok := init["st"]; ok {
-		T, I, h0 = uint32(st.F("T").I()), uint32(st.F("I").I()), st.F("h").I()
-	} else if v := os.Getenv("VERIF_LEDGER_WORLD"); v != "" { // probe driver: "T,I,h0"
-		var t, i, h int
-		if _, err := fmt.Sscanf(v, "%d,%d,%d", &t, &i, &h); err != nil {
+		T, I, h0, stab = uint32(st.F("T").I()), uint32(st.F("I").I()), st.F("h").I(), st.F("stab").B()
+	} else if v := os.Getenv("VERIF_LEDGER_WORLD"); v != "" { // probe driver: "T,I,h0,stab"
+		var t, i, h, sb int
+		if _, err := fmt.Sscanf(v, "%d,%d,%d,%d", &t, &i, &h, &sb); err != nil {
 			engine.Failf("bad VERIF_LEDGER_WORLD=%s", v)
 		}
-		T, I, h0 = uint32(t), uint32(i), h
+		T, I, h0, stab = uint32(t), uint32(i), h, sb != 0
 	}
-	wd := a.worldOf(T, I, h0)
+	wd := a.worldOf(T, I, h0, stab)
 	a.setParams(wd)
 	if a.B == nil || a.dirty || a.wd != wd || wd.stab || a.nbeh%a.recycle == 0 {
 		a.dirty = false
@@ -692,6 +690,23 @@ func (a *adapter) state(db *store.ChainDatabase, h common.Hash, bad *[]string) m
 		}
 	}
 	st["rwd"], st["rwt"] = rwd, rwt
+	// the node's candidate index (written when a block becomes stable)
+	idx := map[string]bool{}
+	for _, ac := range a.accs {
+		idx[ac.name] = false
+	}
+	cands, err := db.GetAllCandidates()
+	if err != nil {
+		engine.Failf("candidate index: %v", err)
+	}
+	for _, c := range cands {
+		n, ok := a.byAddr[c]
+		if !ok {
+			engine.Failf("candidate index names an address outside the universe: %s", c.String())
+		}
+		idx[n] = true
+	}
+	st["idx"], st["stab"] = idx, a.wd != nil && a.wd.stab
 	if (a.assetID != common.Hash{}) {
 		is := am.GetAccount(a.byName["a4"].addr)
 		if s, err := is.GetAssetCodeTotalSupply(a.assetID); err == nil {
@@ -797,7 +812,9 @@ func (a *adapter) minerFor(parent *types.Block) int {
 	return 0
 }
 
-// stabilise makes the committed block stable on both nodes (term-boundary worlds).
+// stabilise makes the committed block stable on both nodes (worlds with st.stab): on the validator through the real
+// route - the confirms of the other deputies of the block's term arrive (DPoVP.InsertConfirms -> UpdateStable) -, on the
+// builder, which holds the block only in its store, with the store-level step UpdateStable performs (SetStableBlock).
 func (a *adapter) stabilise(blk *types.Block, onV bool) {
 	if onV {
 		var sigs []types.SignData
@@ -917,14 +934,14 @@ func (a *adapter) Apply(s engine.Step) (engine.Fields, error) {
 		}
 		_, err := a.V.DP.InsertBlock(node.Copy(a.last, nil))
 		fl["vok"] = err == nil
+		if a.wd.stab {
+			a.stabilise(a.last, err == nil)
+		}
 		if err != nil {
 			fl["verr"] = err.Error()
 			a.logBlock(fl, a.B.DB, a.last, a.lastTxs)
 		} else {
 			a.logBlock(fl, a.V.DB, a.last, a.lastTxs) // the validator's own account data
-		}
-		if a.wd.stab {
-			a.stabilise(a.last, err == nil)
 		}
 		a.parent, a.pending, a.last, a.lastTxs = a.last, nil, nil, nil
 		return fl, nil
@@ -937,9 +954,11 @@ func (a *adapter) Apply(s engine.Step) (engine.Fields, error) {
 	return fl, nil
 }
 
-// Retired nodes are not closed at once: the store writes the index data of stable blocks from a background goroutine
-// that panics (killing the process) when the database is closed underneath it (SyncFileDB.afterWriteExtend).  A node is
-// closed 20 s after its last use; at the end of the run the directories are removed without closing.
+// Retired nodes are not closed while the store still writes: it writes the index data of stable blocks from a
+// background goroutine that panics (killing the process) when the database is closed underneath it
+// (SyncFileDB.afterWriteExtend), and Close() with queued writes leaves that goroutine blocked for ever.  A node is closed
+// as soon as its write queue has drained (at the latest 20 s after its last use); at the end of the run the directories
+// of the others are removed without closing.
 type retiredNode struct {
 	n  *node.Node
 	at time.Time
@@ -953,10 +972,18 @@ func (a *adapter) retire(ns ...*node.Node) {
 	}
 }
 
+func drained(n *node.Node) bool {
+	q := n.DB.Beansdb.Queue
+	q.IndexRW.RLock()
+	k := len(q.Index)
+	q.IndexRW.RUnlock()
+	return k == 0 && len(q.SyncFileDB.WriteChan) == 0 && len(q.DoneChan) == 0
+}
+
 func (a *adapter) reap(all bool) {
 	var keep []retiredNode
 	for _, r := range a.retired {
-		if time.Since(r.at) > 20*time.Second {
+		if age := time.Since(r.at); age > 20*time.Second || (age > 50*time.Millisecond && drained(r.n)) {
 			r.n.Destroy()
 		} else if all {
 			os.RemoveAll(r.n.Dir)
